@@ -224,7 +224,10 @@ async fn handle_stream(
             };
         }
 
-        let tx = ts.get_mut(topic).unwrap();
+        // Hand the socket over outside of the global lock: the channel of a stalled topic can
+        // be full, and waiting for it while holding the lock would block every other topic.
+        let mut tx = ts.get(topic).unwrap().clone();
+        drop(ts);
 
         match frame {
             Frame::RegisterPublisher(_) => {
